@@ -34,6 +34,9 @@ JOBS: Dict[str, Dict[str, Any]] = {
     "big_am1_sp2": {"names": ["c2h4"], "method": "AM1", "converger": [1], "sp2": [True, 1e-6]},
     "uhf_oh": {"names": ["oh"], "method": "AM1", "converger": [1], "uhf": True},
     "cis_ch2o": {"names": ["ch2o"], "method": "AM1", "converger": [1], "excited": {"n_states": 3, "method": "cis"}},
+    # an SCF threshold looser than the excited-state solver needs: the package tightens it (and writes the tightened value into the caller's dictionary)
+    "cis_ch2o_loose": {"names": ["ch2o"], "method": "AM1", "converger": [1], "eps": 1e-4, "excited": {"n_states": 3, "method": "cis"}},
+    "rpa_h2o_loose": {"names": ["h2o"], "method": "PM3", "converger": [0, 0.3], "eps": 1e-5, "excited": {"n_states": 2, "method": "rpa"}},
     "pm6sp_so2_anal": {"names": ["so2"], "method": "PM6_SP", "converger": [1], "analytical": [True]},
     "fail_odd": {"names": ["oh"], "method": "AM1", "converger": [1], "fails": True},
     "loose": {"names": ["hcn"], "method": "AM1", "converger": [1], "eps": 1e-4},
@@ -367,6 +370,7 @@ def gen_cases(ctx: Ctx):
     cases.append(("threads", {"job": "batch_mndo", "threads": [2, 7, 16] if ctx.thorough else [4, 16]}))
     cases.append(("dict_reuse", {"a": "w_am1", "b": "w_am1"}))
     cases.append(("dict_reuse", {"a": "cis_ch2o", "b": "cis_ch2o"}))
+    cases.append(("dict_reuse", {"a": ["cis_ch2o_loose", "rpa_h2o_loose"][ctx.seed % 2], "b": ["cis_ch2o_loose", "rpa_h2o_loose"][ctx.seed % 2]}))
     cases.append(("dict_reuse", {"a": "batch_mndo", "b": "batch_mndo"}))
     if ctx.thorough:
         cases.append(("dict_reuse", {"a": "pm6sp_so2_anal", "b": "pm6sp_so2_anal"}))
